@@ -35,6 +35,8 @@ def run(repo, chk, tier):
     labels(repo, chk)
     noise(repo, chk)
     downsample(repo, chk)
+    combiners(repo, chk)
+    value_width(repo, chk)
 
 
 def _info_entry(fn, key):
@@ -468,3 +470,280 @@ def _sibling_branches(par, a, b):
         return out
     ca, cb = dict(chain(a)), dict(chain(b))
     return any(k in cb and cb[k] != v for k, v in ca.items())
+
+
+# -- 6 the combiners shipped with the generator ---------------------------------------------------------------
+COMBINERS = {'_xor': 'xor', '_and': 'and', '_or': 'or'}
+UFUNC = {'np.bitwise_xor': 'xor', 'np.bitwise_and': 'and', 'np.bitwise_or': 'or', 'numpy.bitwise_xor': 'xor', 'numpy.bitwise_and': 'and', 'numpy.bitwise_or': 'or',
+         'operator.xor': 'xor', 'operator.and_': 'and', 'operator.or_': 'or', 'np.logical_xor': 'lxor', 'np.logical_and': 'land', 'np.logical_or': 'lor'}
+BINOP = {ast.BitXor: 'xor', ast.BitAnd: 'and', ast.BitOr: 'or'}
+IDENTITY = {'xor': 'zero', 'or': 'zero', 'and': 'allones'}
+ABSORBING = {'and': 'zero', 'or': 'allones'}
+
+
+class _NoFold(Exception):
+    pass
+
+
+class _FoldEval:
+    """Abstract evaluation of a combiner for a fixed number k of source columns: the array of columns is the list [c0..ck-1]; transposition, np.array
+    and astype(int) are transparent; the result is an expression tree over the bitwise operators whose leaves are columns or constant arrays."""
+
+    def __init__(self, fn, k):
+        self.fn, self.m, self.k = fn, fn.module, k
+        self.env = {}
+        p = [a for a in fn.params if a != 'self']
+        if len(p) != 1:
+            raise _NoFold('the combiner does not take exactly one argument')
+        self.env[p[0]] = ('cols', list(range(k)))
+        self.steps = 0
+
+    def ufunc(self, e):
+        if isinstance(e, ast.Name) and e.id in self.env and self.env[e.id][0] == 'ufunc':
+            return self.env[e.id][1]
+        d = self.m.dotted(e) if isinstance(e, (ast.Name, ast.Attribute)) else None
+        src = ast.unparse(e)
+        for k in (d, src, (d or '').replace('numpy.', 'np.')):
+            if k in UFUNC:
+                return UFUNC[k]
+        return None
+
+    def ev(self, e):
+        if isinstance(e, ast.Constant):
+            return ('const', e.value)
+        if isinstance(e, ast.Name):
+            if e.id in self.env:
+                return self.env[e.id]
+            u = self.ufunc(e)
+            if u:
+                return ('ufunc', u)
+            raise _NoFold(f'unbound name {e.id}')
+        if isinstance(e, ast.Attribute):
+            u = self.ufunc(e)
+            if u:
+                return ('ufunc', u)
+            if e.attr == 'T':
+                return self.ev(e.value)
+            raise _NoFold(ast.unparse(e))
+        if isinstance(e, ast.UnaryOp) and isinstance(e.op, ast.USub) and isinstance(e.operand, ast.Constant):
+            return ('const', -e.operand.value)
+        if isinstance(e, ast.UnaryOp) and isinstance(e.op, ast.Invert):
+            v = self.ev(e.operand)
+            if v == ('const', 0) or v == ('leaf', 'zero'):
+                return ('leaf', 'allones')
+            raise _NoFold(ast.unparse(e))
+        if isinstance(e, ast.BinOp):
+            if type(e.op) in BINOP:
+                return self.apply(BINOP[type(e.op)], self.ev(e.left), self.ev(e.right))
+            a, b = self.ev(e.left), self.ev(e.right)
+            if a[0] == 'const' and b[0] == 'const' and isinstance(e.op, (ast.Add, ast.Sub)):
+                return ('const', a[1] + b[1] if isinstance(e.op, ast.Add) else a[1] - b[1])
+            raise _NoFold(ast.unparse(e))
+        if isinstance(e, ast.Subscript):
+            v = self.ev(e.value)
+            if v[0] != 'cols':
+                raise _NoFold(ast.unparse(e))
+            if isinstance(e.slice, ast.Slice):
+                lo = self.ev(e.slice.lower)[1] if e.slice.lower is not None else None
+                hi = self.ev(e.slice.upper)[1] if e.slice.upper is not None else None
+                st = self.ev(e.slice.step)[1] if e.slice.step is not None else None
+                return ('cols', v[1][slice(lo, hi, st)])
+            i = self.ev(e.slice)
+            if i[0] != 'const' or not isinstance(i[1], int):
+                raise _NoFold(ast.unparse(e))
+            try:
+                return ('col', v[1][i[1]])
+            except IndexError:
+                raise _NoFold(f'index {i[1]} outside the {self.k} columns')
+        if isinstance(e, ast.Compare) and len(e.ops) == 1:
+            a, b = self.ev(e.left), self.ev(e.comparators[0])
+            if a[0] == 'const' and b[0] == 'const':
+                import operator as _o
+                f = {ast.Gt: _o.gt, ast.GtE: _o.ge, ast.Lt: _o.lt, ast.LtE: _o.le, ast.Eq: _o.eq, ast.NotEq: _o.ne}.get(type(e.ops[0]))
+                if f:
+                    return ('const', f(a[1], b[1]))
+            raise _NoFold(ast.unparse(e))
+        if isinstance(e, ast.Call):
+            f = e.func
+            d = self.m.dotted(f) if isinstance(f, (ast.Name, ast.Attribute)) else None
+            d = (d or '').replace('numpy.', 'np.')
+            if isinstance(f, ast.Name) and f.id == 'len' and len(e.args) == 1:
+                v = self.ev(e.args[0])
+                if v[0] == 'cols':
+                    return ('const', len(v[1]))
+            if isinstance(f, ast.Name) and f.id == 'range':
+                a = [self.ev(x) for x in e.args]
+                if all(x[0] == 'const' for x in a):
+                    return ('range', list(range(*[x[1] for x in a])))
+            if d in ('np.array', 'np.asarray', 'np.transpose', 'np.stack', 'np.column_stack', 'list', 'tuple', 'iter') and e.args:
+                v = self.ev(e.args[0])
+                if v[0] == 'cols':
+                    return v
+            if isinstance(f, ast.Attribute) and f.attr in ('astype', 'transpose', 'copy', 'tolist') :
+                v = self.ev(f.value)
+                if f.attr == 'astype' and not (e.args and ast.unparse(e.args[0]) in ('int', 'np.int64', 'np.int32', "'int'", "'int64'")):
+                    raise _NoFold(ast.unparse(e))
+                return v
+            if d in ('np.zeros_like', 'np.zeros'):
+                return ('leaf', 'zero')
+            if d in ('np.ones_like', 'np.ones'):
+                return ('leaf', 'one')
+            if d in ('np.full_like', 'np.full') and len(e.args) >= 2:
+                c = self.ev(e.args[1])
+                return ('leaf', {0: 'zero', -1: 'allones'}.get(c[1], 'one')) if c[0] == 'const' else ('leaf', 'one')
+            u = self.ufunc(f)
+            if u and len(e.args) == 2:
+                return self.apply(u, self.ev(e.args[0]), self.ev(e.args[1]))
+            # ufunc.reduce(cols[, axis=0]) / functools.reduce(ufunc, cols[, init])
+            if isinstance(f, ast.Attribute) and f.attr == 'reduce' and self.ufunc(f.value) and e.args:
+                v = self.ev(e.args[0])
+                ax = next((k.value for k in e.keywords if k.arg == 'axis'), e.args[1] if len(e.args) > 1 else None)
+                if v[0] == 'cols' and (ax is None or (isinstance(ax, ast.Constant) and ax.value == 0)):
+                    return self.fold(self.ufunc(f.value), [('col', i) for i in v[1]])
+                raise _NoFold(ast.unparse(e))
+            if d in ('functools.reduce', 'reduce') and len(e.args) >= 2:
+                u = self.ev(e.args[0])
+                v = self.ev(e.args[1])
+                if u[0] == 'ufunc' and v[0] == 'cols':
+                    items = [('col', i) for i in v[1]]
+                    if len(e.args) > 2:
+                        items = [self.ev(e.args[2])] + items
+                    return self.fold(u[1], items)
+            raise _NoFold(ast.unparse(e)[:80])
+        if isinstance(e, ast.Lambda):
+            raise _NoFold('lambda')
+        raise _NoFold(ast.unparse(e)[:80])
+
+    def fold(self, op, items):
+        if not items:
+            raise _NoFold('fold of nothing')
+        out = items[0]
+        for x in items[1:]:
+            out = self.apply(op, out, x)
+        return out
+
+    def apply(self, op, a, b):
+        for x in (a, b):
+            if x[0] not in ('col', 'leaf', 'op'):
+                if x[0] == 'const' and x[1] in (0, -1):
+                    continue
+                raise _NoFold(f'operand {x}')
+        conv = lambda x: ('leaf', 'zero' if x[1] == 0 else 'allones') if x[0] == 'const' else x
+        return ('op', op, conv(a), conv(b))
+
+    def run(self, body):
+        for st in body:
+            self.steps += 1
+            if self.steps > 400:
+                raise _NoFold('too many steps')
+            if isinstance(st, ast.Expr) and isinstance(st.value, ast.Constant):
+                continue
+            if isinstance(st, ast.Assign) and len(st.targets) == 1 and isinstance(st.targets[0], ast.Name):
+                self.env[st.targets[0].id] = self.ev(st.value)
+            elif isinstance(st, ast.AugAssign) and isinstance(st.target, ast.Name) and type(st.op) in BINOP:
+                self.env[st.target.id] = self.apply(BINOP[type(st.op)], self.ev(st.target), self.ev(st.value))
+            elif isinstance(st, ast.If):
+                t = self.ev(st.test)
+                if t[0] != 'const':
+                    raise _NoFold(ast.unparse(st.test))
+                r = self.run(st.body if t[1] else st.orelse)
+                if r is not None:
+                    return r
+            elif isinstance(st, ast.For) and isinstance(st.target, ast.Name) and not st.orelse:
+                it = self.ev(st.iter)
+                if it[0] == 'range':
+                    vals = [('const', i) for i in it[1]]
+                elif it[0] == 'cols':
+                    vals = [('col', i) for i in it[1]]
+                else:
+                    raise _NoFold(ast.unparse(st.iter))
+                for v in vals:
+                    self.env[st.target.id] = v
+                    r = self.run(st.body)
+                    if r is not None:
+                        return r
+            elif isinstance(st, ast.Return):
+                return self.ev(st.value)
+            elif isinstance(st, ast.Pass):
+                continue
+            else:
+                raise _NoFold(ast.unparse(st)[:80])
+        return None
+
+
+def _fold_leaves(t, op, out):
+    if t[0] == 'op':
+        if t[1] != op:
+            out.append(('wrongop', t[1]))
+            return
+        _fold_leaves(t[2], op, out)
+        _fold_leaves(t[3], op, out)
+    else:
+        out.append(t)
+
+
+def combiners(repo, chk):
+    """C20.6 - `_xor`, `_and`, `_or` (the functions generate_combinations is documented to be used with) combine ALL source columns with the operator
+    of their name.  Each is evaluated abstractly for k = 2, 3, 4 source columns: the result must be the fold of that operator over exactly the
+    columns c0..ck-1 (modulo associativity / commutativity, identities dropped, x^x = 0, x&x = x|x = x)."""
+    m = repo.mod(CC)
+    for name, op in COMBINERS.items():
+        fn = m.funcs.get(f'{CLS}.{name}')
+        if fn is None:
+            chk.unsure('C20.6', 'R15', 'outrank/algorithms/synthetic_data_generators/cc_generator.py', name, f'the combiner {name} was not found')
+            continue
+        verdict = None
+        for k in (2, 3, 4):
+            try:
+                t = _FoldEval(fn, k).run(fn.node.body)
+            except _NoFold as e:
+                verdict = ('unsure', f'for {k} columns the combiner is written with a construct outside the fold vocabulary: {e}')
+                break
+            except RecursionError:
+                verdict = ('unsure', 'evaluation too deep')
+                break
+            if t is None or t[0] not in ('op', 'col'):
+                verdict = ('unsure', f'for {k} columns the result is not an expression over the columns: {t}')
+                break
+            leaves = []
+            _fold_leaves(t, op, leaves)
+            wrong = [x for x in leaves if x[0] == 'wrongop']
+            if wrong:
+                verdict = ('bad', f'{name} combines columns with the operator {wrong[0][1]!r}; its name and documentation say {op!r}')
+                break
+            consts = [x[1] for x in leaves if x[0] == 'leaf']
+            cols = [x[1] for x in leaves if x[0] == 'col']
+            absorbing = [c for c in consts if c == ABSORBING.get(op)]
+            foreign = [c for c in consts if c != IDENTITY[op] and c != ABSORBING.get(op)]
+            if absorbing:
+                verdict = ('bad', f'for {k} columns the fold of {op!r} includes the constant {absorbing[0]!r} array, which absorbs every operand: the result is that constant whatever the sources hold')
+                break
+            if foreign:
+                verdict = ('bad', f'for {k} columns the fold of {op!r} includes a constant {foreign[0]!r} array that is not the identity of the operator: the result is not the {op} of the sources')
+                break
+            if op == 'xor':
+                eff = sorted(c for c in set(cols) if cols.count(c) % 2 == 1)
+            else:
+                eff = sorted(set(cols))
+            if eff != list(range(k)):
+                missing = sorted(set(range(k)) - set(eff))
+                verdict = ('bad', f'for {k} source columns the result is the {op} of columns {eff} only: column(s) {missing} do not take part' + (' (or cancel out)' if op == 'xor' and set(missing) <= set(cols) else ''))
+                break
+        site = fn.site()
+        if verdict is None:
+            chk.ok('C20.6', 'R15', site, f'{name}: fold of {op} over all columns (k = 2, 3, 4)', 'every source column takes part exactly once (up to the algebra of the operator), no foreign constant')
+        elif verdict[0] == 'bad':
+            chk.bad('C20.6', 'R15', site, name, verdict[1])
+        else:
+            chk.unsure('C20.6', 'R15', site, name, verdict[1])
+
+
+def value_width(repo, chk):
+    """C20.7 - labels, correlated features and user combinations are arithmetic on the generated codes (2*x+3 summed, products, bitwise folds): the
+    arithmetic is exact only while the data set keeps a wide integer type.  A cast of the data to int8 / int16 anywhere in the generator makes
+    that arithmetic wrap for ordinary cardinalities."""
+    from .common import narrowing_casts
+    m = repo.mod(CC)
+    funcs = [f for q, f in m.funcs.items() if q.startswith(CLS + '.')]
+    narrowing_casts(chk, 'C20.7', funcs, 'generated data is', 'sums and products computed from the codes by generate_labels / generate_combinations wrap around in that type, so labels are not a monotone function '
+                    'of the decision value and combinations are not the stated function of their sources', m.relpath)
